@@ -194,6 +194,70 @@ def cert_prove(hyps, goal, budget_s=20.0):
     return True, dict(secs=time.time() - t0, hyps=len(G))
 
 
+def _hyp_polys(cv, hyps):
+    G = []
+    for h in _eq_atoms(hyps):
+        p = sp.expand(cv.conv(h.arg(0)) - cv.conv(h.arg(1)))
+        if p != 0 and p.free_symbols and not any(s.name.startswith('op') for s in p.free_symbols):
+            G.append(p)
+    return G
+
+
+def _symkey(s):
+    return (0 if s.name.startswith('iv') else 1 if s.name.startswith('dv') else 2 if '!' in s.name else 3, s.name)
+
+
+def _normal_forms(expr, G, use_gb=True):
+    """candidate normal forms of expr modulo <G> (untrusted proposals): expr itself, multivariate division
+    under cyclic lex orders, then the normal form w.r.t. a Groebner basis"""
+    seen = set()
+    def emit(e):
+        e = sp.expand(e)
+        if e in seen:
+            return None
+        seen.add(e)
+        return e
+    e = emit(expr)
+    if e is not None:
+        yield e
+    if not G:
+        return
+    syms = sorted(set().union(*[p.free_symbols for p in G]) | expr.free_symbols, key=_symkey)
+    # only hypotheses connected to the expression
+    rel = set(expr.free_symbols)
+    changed = True
+    while changed:
+        changed = False
+        for p in G:
+            if p.free_symbols & rel and not p.free_symbols <= rel:
+                rel |= p.free_symbols; changed = True
+    Gr = [p for p in G if p.free_symbols & rel]
+    if not Gr:
+        return
+    syms = [s_ for s_ in syms if s_ in rel]
+    for k in range(min(len(syms), 6)):
+        order = syms[k:] + syms[:k]
+        try:
+            _, r = sp.reduced(expr, Gr, *order, order='lex')
+        except Exception:
+            continue
+        e = emit(r)
+        if e is not None:
+            yield e
+    if use_gb:
+        for od in ('grevlex', 'lex'):
+            try:
+                GB = sp.groebner(Gr, *syms, order=od)
+                _, r = GB.reduce(expr)
+            except Budget:
+                raise
+            except Exception:
+                continue
+            e = emit(r)
+            if e is not None:
+                yield e
+
+
 # ------------------------------------------------------------------ certified square roots
 SQRT_LOG = []
 
@@ -231,35 +295,14 @@ def sqrt_cut(t, E, budget_s=3.0, max_nodes=400):
         with _Alarm(budget_s):
             cv = _Conv()
             rad = sp.expand(cv.conv(t.z))
-            if cv.div_defs:
-                return None
-            G = []
-            for h in _eq_atoms(hyps):
-                p = sp.expand(cv.conv(h.arg(0)) - cv.conv(h.arg(1)))
-                if p != 0 and p.free_symbols and not any(s.name.startswith(('dv', 'iv', 'op')) for s in p.free_symbols):
-                    G.append(p)
-            if cv.div_defs:
-                G = [p for p in G]      # divisions inside hypotheses: leave those hypotheses out
-            rel = set(rad.free_symbols)
-            G = [p for p in G if p.free_symbols & rel or True]
-            cands = [rad]
-            S = _perfect_square(rad)
-            if S is None and G:
-                syms = sorted(set().union(*[p.free_symbols for p in G]) | rel, key=lambda s: s.name)
-                seen = {rad}
-                for k in range(len(syms)):
-                    order = syms[k:] + syms[:k]
-                    try:
-                        _, r = sp.reduced(rad, G, *order, order='lex')
-                    except Exception:
-                        continue
-                    r = sp.expand(r)
-                    if r in seen:
-                        continue
-                    seen.add(r)
-                    S = _perfect_square(r)
-                    if S is not None:
-                        break
+            G = _hyp_polys(cv, hyps) + list(cv.div_defs)
+            S = None
+            for cand in _normal_forms(rad, G):
+                if any(sy.name.startswith('dv') for sy in cand.free_symbols):
+                    continue
+                S = _perfect_square(cand)
+                if S is not None:
+                    break
             if S is None:
                 SQRT_LOG.append(('no-square', str(rad)[:80]))
                 return None
@@ -291,56 +334,40 @@ def sqrt_cut(t, E, budget_s=3.0, max_nodes=400):
 
 
 # ------------------------------------------------------------------ certified exact division
-def div_cut(t, a, b, E, budget_s=2.0, max_nodes=300):
-    """called for a/b (t = the z3 division term): when the quotient is a polynomial N modulo the path's
-    equality hypotheses (a == N*b certified; b != 0 is the safety obligation) return N, else t unchanged"""
+def div_cut(a, b, E, budget_s=2.0, max_nodes=300):
+    """called for a/b: when the quotient is a polynomial N modulo the path's equality hypotheses
+    (a == N*b certified; b != 0 is the safety obligation) return N, else None"""
     from .core import Term, toz, isnum, _const_val
-    if t.nodes > max_nodes:
-        return t
+    t = None
+    an = a.nodes if isinstance(a, Term) else 1
+    if an + b.nodes > max_nodes:
+        return None
     az, bz = toz(a), toz(b)
     hyps = E.hyps()
     try:
         with _Alarm(budget_s):
             cv = _Conv()
             A = sp.expand(cv.conv(az)); B = sp.expand(cv.conv(bz))
-            if cv.div_defs:
-                return t
-            q = sp.cancel(A / B)
-            num, den = sp.fraction(q)
+            G = _hyp_polys(cv, hyps) + list(cv.div_defs)
             N = None
-            if den.is_Rational and den != 0:
-                N = sp.expand(q)
-            else:
-                G = []
-                for h in _eq_atoms(hyps):
-                    p = sp.expand(cv.conv(h.arg(0)) - cv.conv(h.arg(1)))
-                    if p != 0 and p.free_symbols and not any(s.name.startswith(('dv', 'iv', 'op')) for s in p.free_symbols):
-                        G.append(p)
-                if G:
-                    syms = sorted(set().union(*[p.free_symbols for p in G]) | A.free_symbols | B.free_symbols, key=lambda s: s.name)
-                    for k in range(len(syms)):
-                        order = syms[k:] + syms[:k]
-                        try:
-                            _, r = sp.reduced(A, G, *order, order='lex')
-                        except Exception:
-                            continue
-                        q = sp.cancel(sp.expand(r) / B)
-                        num, den = sp.fraction(q)
-                        if den.is_Rational and den != 0:
-                            N = sp.expand(q)
-                            break
+            for cand in _normal_forms(A, G, use_gb=False):
+                q = sp.cancel(cand / B)
+                num, den = sp.fraction(q)
+                if den.is_Rational and den != 0:
+                    N = sp.expand(q)
+                    break
             if N is None:
-                return t
+                return None
     except Budget:
-        return t
+        return None
     except Exception:
-        return t
+        return None
     Nz = z3.simplify(_s2z(N, cv.syms)) if N != 0 else z3.RealVal(0)
     ok, info = cert_prove(hyps, az == Nz * bz, budget_s=budget_s * 2)
     if not ok:
-        return t
+        return None
     E.stats['div_cuts'] = E.stats.get('div_cuts', 0) + 1
     E.axioms_used.add('simp:div(certified)')
     if z3.is_rational_value(Nz):
         return float(_const_val(Nz))
-    return Term(Nz, max(1, t.nodes // 2))
+    return Term(Nz, max(1, (an + b.nodes) // 2))
